@@ -35,7 +35,7 @@ def plan(tier):
         # negative control: with what Set.db_reverse_remove really does transcribed (RefPhantomRemove = FALSE)
         # TLC must find the RepeatableOrLoud counterexample
         dict(name='c21-negative-control', how='negative', expect='RepeatableOrLoud',
-             cfg=dict(NS=2, NO=2, MaxOps=2, KB='link', OpSet1=READER, OpSet=WRITER, Ref=False)),
+             cfg=dict(NS=2, NO=2, MaxOps=3, KB='link', OpSet1=('Q', 'RC', 'LC'), OpSet=('W',), Ref=False)),
         dict(name='c21-coverage', how='check', coverage=True,
              cfg=dict(NS=2, NO=2, MaxOps=2, KB='link', OpSet1=READER + ('W', 'GFU'), OpSet=WRITER + ('F', 'X'))),
         # reader and writer with 3 operations each, exhaustive
